@@ -165,7 +165,7 @@ fn count_expression_complexity(expression: &ast::Expression, starting_complexity
                 allow(non_exhaustive_omitted_patterns)
             )]
             if matches!(binop, ast::BinOp::And(_) | ast::BinOp::Or(_)) {
-                complexity += 1;
+                complexity = complexity.saturating_add(1);
             }
 
             complexity = count_expression_complexity(lhs, complexity);
@@ -213,10 +213,10 @@ fn count_expression_complexity(expression: &ast::Expression, starting_complexity
 
         #[cfg(feature = "roblox")]
         ast::Expression::IfExpression(if_expression) => {
-            complexity += 1;
+            complexity = complexity.saturating_add(1);
             if let Some(else_if_expressions) = if_expression.else_if_expressions() {
                 for else_if_expression in else_if_expressions {
-                    complexity += 1;
+                    complexity = complexity.saturating_add(1);
                     complexity =
                         count_expression_complexity(else_if_expression.expression(), complexity);
                 }
@@ -282,7 +282,7 @@ fn count_block_complexity(block: &ast::Block, starting_complexity: u16) -> u16 {
             ast::Stmt::FunctionDeclaration(_) => {}
 
             ast::Stmt::GenericFor(generic_for) => {
-                complexity += 1;
+                complexity = complexity.saturating_add(1);
                 for expression in generic_for.expressions() {
                     complexity = count_expression_complexity(expression, complexity);
                 }
@@ -290,13 +290,13 @@ fn count_block_complexity(block: &ast::Block, starting_complexity: u16) -> u16 {
             }
 
             ast::Stmt::If(if_block) => {
-                complexity += 1;
+                complexity = complexity.saturating_add(1);
                 complexity = count_expression_complexity(if_block.condition(), complexity);
                 complexity = count_block_complexity(if_block.block(), complexity);
 
                 if let Some(else_if_statements) = if_block.else_if() {
                     for else_if in else_if_statements {
-                        complexity += 1;
+                        complexity = complexity.saturating_add(1);
                         complexity = count_expression_complexity(else_if.condition(), complexity);
                         complexity = count_block_complexity(else_if.block(), complexity);
                     }
@@ -313,7 +313,7 @@ fn count_block_complexity(block: &ast::Block, starting_complexity: u16) -> u16 {
             ast::Stmt::LocalFunction(_) => {}
 
             ast::Stmt::NumericFor(numeric_for) => {
-                complexity += 1;
+                complexity = complexity.saturating_add(1);
                 complexity = count_expression_complexity(numeric_for.start(), complexity);
                 complexity = count_expression_complexity(numeric_for.end(), complexity);
 
@@ -325,12 +325,12 @@ fn count_block_complexity(block: &ast::Block, starting_complexity: u16) -> u16 {
             }
 
             ast::Stmt::Repeat(repeat_block) => {
-                complexity = count_expression_complexity(repeat_block.until(), complexity + 1);
+                complexity = count_expression_complexity(repeat_block.until(), complexity.saturating_add(1));
                 complexity = count_block_complexity(repeat_block.block(), complexity);
             }
 
             ast::Stmt::While(while_block) => {
-                complexity = count_expression_complexity(while_block.condition(), complexity + 1);
+                complexity = count_expression_complexity(while_block.condition(), complexity.saturating_add(1));
                 complexity = count_block_complexity(while_block.block(), complexity);
             }
 
